@@ -129,12 +129,54 @@ Qed.
 (* ------------------------------------------------------------------------------------ *)
 (* 3-D, Sylvester formulas for three distinct roots                                        *)
 (* ------------------------------------------------------------------------------------ *)
+Local Open Scope mat_scope.
+Ltac m3 := intros; apply mat3_eq; simpl; ring.
+
+(* Cayley-Hamilton for a symmetric 3x3 matrix, with ITS OWN invariants *)
+Lemma cayley_hamilton_sym3 : forall a b c f g h : R,
+  let X : Mat3 := sym3 a b c f g h in
+  X * X * X - sc (tr3 a b c) * (X * X) + sc (I2_3 a b c f g h) * X - sc (det3 a b c f g h) = 0.
+Proof. intros. unfold X, sym3, tr3, I2_3, det3. m3. Qed.
+
+Lemma charpoly_expand : forall (X : Mat3) (v1 v2 v3 : R),
+  (X - sc v1 * 1) * (X - sc v2 * 1) * (X - sc v3 * 1)
+  = X * X * X - sc (v1 + v2 + v3)%R * (X * X) + sc (v1 * v2 + v1 * v3 + v2 * v3)%R * X - sc (v1 * v2 * v3)%R.
+Proof. m3. Qed.
+
+Lemma idem_factor : forall (X : Mat3) (v1 v2 v3 : R),
+  let N := (X - sc v2 * 1) * (X - sc v3 * 1) in
+  N * N - sc ((v1 - v2) * (v1 - v3))%R * N
+  = (X - sc v1 * 1) * (X - sc v2 * 1) * (X - sc v3 * 1) * (X + sc (v1 - v2 - v3)%R).
+Proof. m3. Qed.
+
+Lemma orth_factor : forall (X : Mat3) (v1 v2 v3 : R),
+  ((X - sc v2 * 1) * (X - sc v3 * 1)) * ((X - sc v1 * 1) * (X - sc v2 * 1))
+  = (X - sc v1 * 1) * (X - sc v2 * 1) * (X - sc v3 * 1) * (X - sc v2 * 1).
+Proof. m3. Qed.
+
+Lemma orth_factor' : forall (X : Mat3) (v1 v2 v3 : R),
+  ((X - sc v1 * 1) * (X - sc v2 * 1)) * ((X - sc v2 * 1) * (X - sc v3 * 1))
+  = (X - sc v1 * 1) * (X - sc v2 * 1) * (X - sc v3 * 1) * (X - sc v2 * 1).
+Proof. m3. Qed.
+
+Lemma scale_sq : forall (k : R) (N : Mat3), (sc k * N) * (sc k * N) = sc (k * k)%R * (N * N).
+Proof. m3. Qed.
+Lemma scale_2 : forall (k l : R) (N N' : Mat3), (sc k * N) * (sc l * N') = sc (k * l)%R * (N * N').
+Proof. m3. Qed.
+Lemma scale_back : forall (k D : R) (N : Mat3), (k * D = 1)%R -> sc (k * k)%R * (sc D * N) = sc k * N.
+Proof.
+  intros k D N H. replace (sc (k * k)%R * (sc D * N)) with (sc (k * (k * D))%R * N) by m3.
+  rewrite H, Rmult_1_r. reflexivity.
+Qed.
+Lemma mul_0_l3 : forall N : Mat3, 0 * N = 0.  Proof. m3. Qed.
+Lemma sc_mul_0 : forall k : R, sc k * (0 : Mat3) = 0.  Proof. m3. Qed.
+
 Section Sylvester.
 Variables a b c f g h : R.       (* X = [[a h g][h b f][g f c]] *)
 Variables v1 v2 v3 : R.
-Hypothesis vieta1 : v1 + v2 + v3 = tr3 a b c.
-Hypothesis vieta2 : v1 * v2 + v1 * v3 + v2 * v3 = I2_3 a b c f g h.
-Hypothesis vieta3 : v1 * v2 * v3 = det3 a b c f g h.
+Hypothesis vieta1 : (v1 + v2 + v3 = tr3 a b c)%R.
+Hypothesis vieta2 : (v1 * v2 + v1 * v3 + v2 * v3 = I2_3 a b c f g h)%R.
+Hypothesis vieta3 : (v1 * v2 * v3 = det3 a b c f g h)%R.
 Hypothesis d12 : v1 <> v2.
 Hypothesis d13 : v1 <> v3.
 Hypothesis d23 : v2 <> v3.
@@ -144,26 +186,105 @@ Let P1 : Mat3 := e3_M1 Mat3 X v1 v2 v3.
 Let P3 : Mat3 := e3_M3 Mat3 X v1 v2 v3.
 Let P2 : Mat3 := e3_M2 Mat3 P1 P3.
 
-Local Open Scope mat_scope.
-
-Ltac entries :=
-  unfold P2, P1, P3, X, e3_M1, e3_M2, e3_M3, sym3, tr3, I2_3, det3 in *;
-  apply mat3_eq; simpl.
-Ltac nz := repeat split; try (intro; apply d12; lra); try (intro; apply d13; lra); try (intro; apply d23; lra);
-           try (intro; apply d12; nra); try (intro; apply d13; nra); try (intro; apply d23; nra).
+Lemma charpoly_vanishes : (X - sc v1 * 1) * (X - sc v2 * 1) * (X - sc v3 * 1) = 0.
+Proof.
+  rewrite charpoly_expand, vieta1, vieta2, vieta3. apply cayley_hamilton_sym3.
+Qed.
 
 Theorem proj3d_distinct_sum : P1 + P2 + P3 = 1.
 Proof. unfold P2, e3_M2. mat_ring. Qed.
 
 Theorem proj3d_distinct_idem1 : P1 * P1 = P1.
-Proof. entries; field_simplify_eq; nz; nsatz. Qed.
+Proof.
+  unfold P1, e3_M1. rewrite scale_sq.
+  pose proof (idem_factor X v1 v2 v3) as H. cbv zeta in H.
+  rewrite charpoly_vanishes, mul_0_l3 in H.
+  assert (H' : (X - sc v2 * 1) * (X - sc v3 * 1) * ((X - sc v2 * 1) * (X - sc v3 * 1))
+               = sc ((v1 - v2) * (v1 - v3))%R * ((X - sc v2 * 1) * (X - sc v3 * 1))).
+  { match goal with |- ?l = ?r => replace l with ((l - r) + r) by mat_ring end. rewrite H. mat_ring. }
+  rewrite H'. apply scale_back. field. split; intro; [apply d13 | apply d12]; lra.
+Qed.
 
 Theorem proj3d_distinct_idem3 : P3 * P3 = P3.
-Proof. entries; field_simplify_eq; nz; nsatz. Qed.
+Proof.
+  unfold P3, e3_M3. rewrite scale_sq.
+  pose proof (idem_factor X v3 v1 v2) as H. cbv zeta in H.
+  assert (Hc : (X - sc v3 * 1) * (X - sc v1 * 1) * (X - sc v2 * 1) = 0).
+  { rewrite <- charpoly_vanishes. m3. }
+  rewrite Hc, mul_0_l3 in H.
+  assert (H' : (X - sc v1 * 1) * (X - sc v2 * 1) * ((X - sc v1 * 1) * (X - sc v2 * 1))
+               = sc ((v3 - v1) * (v3 - v2))%R * ((X - sc v1 * 1) * (X - sc v2 * 1))).
+  { match goal with |- ?l = ?r => replace l with ((l - r) + r) by mat_ring end. rewrite H. mat_ring. }
+  rewrite H'. apply scale_back. field. split; intro; [apply d23 | apply d13]; lra.
+Qed.
 
 Theorem proj3d_distinct_orth13 : P1 * P3 = 0.
-Proof. entries; field_simplify_eq; nz; nsatz. Qed.
+Proof.
+  unfold P1, P3, e3_M1, e3_M3. rewrite scale_2, orth_factor, charpoly_vanishes, mul_0_l3. apply sc_mul_0.
+Qed.
 
 Theorem proj3d_distinct_orth31 : P3 * P1 = 0.
-Proof. entries; field_simplify_eq; nz; nsatz. Qed.
+Proof.
+  unfold P1, P3, e3_M1, e3_M3. rewrite scale_2, orth_factor', charpoly_vanishes, mul_0_l3. apply sc_mul_0.
+Qed.
+
+Theorem proj3d_distinct_idem2 : P2 * P2 = P2.
+Proof.
+  unfold P2, e3_M2.
+  replace ((1 - (P1 + P3)) * (1 - (P1 + P3))) with (1 - P1 - P1 - P3 - P3 + P1 * P1 + P3 * P3 + P1 * P3 + P3 * P1) by mat_ring.
+  rewrite proj3d_distinct_idem1, proj3d_distinct_idem3, proj3d_distinct_orth13, proj3d_distinct_orth31. mat_ring.
+Qed.
+
+Theorem proj3d_distinct_orth12 : P1 * P2 = 0 /\ P2 * P1 = 0 /\ P3 * P2 = 0 /\ P2 * P3 = 0.
+Proof.
+  unfold P2, e3_M2. repeat split.
+  - replace (P1 * (1 - (P1 + P3))) with (P1 - P1 * P1 - P1 * P3) by mat_ring.
+    rewrite proj3d_distinct_idem1, proj3d_distinct_orth13. mat_ring.
+  - replace ((1 - (P1 + P3)) * P1) with (P1 - P1 * P1 - P3 * P1) by mat_ring.
+    rewrite proj3d_distinct_idem1, proj3d_distinct_orth31. mat_ring.
+  - replace (P3 * (1 - (P1 + P3))) with (P3 - P3 * P3 - P3 * P1) by mat_ring.
+    rewrite proj3d_distinct_idem3, proj3d_distinct_orth31. mat_ring.
+  - replace ((1 - (P1 + P3)) * P3) with (P3 - P3 * P3 - P1 * P3) by mat_ring.
+    rewrite proj3d_distinct_idem3, proj3d_distinct_orth13. mat_ring.
+Qed.
+
+(* spectral decomposition X = v1 P1 + v2 P2 + v3 P3 *)
+Theorem proj3d_distinct_decomposition : X = sc v1 * P1 + sc v2 * P2 + sc v3 * P3.
+Proof.
+  unfold P2, P1, P3, e3_M1, e3_M2, e3_M3, X, sym3.
+  apply mat3_eq; simpl; field; repeat split; intro; try (apply d12; lra); try (apply d13; lra); try (apply d23; lra).
+Qed.
 End Sylvester.
+
+(* the full statement [proj3d]: "for every real symmetric 3x3 matrix the routine (Lode-angle
+   root formula, cases g = 0, theta = 0, theta = pi/3, generic) returns a spectral resolution"
+   is NOT proved; only the generic-case projector formulas, given roots of the characteristic
+   polynomial. *)
+Theorem proj3d_distinct_partial : forall a b c f g h v1 v2 v3 : R,
+  (v1 + v2 + v3 = tr3 a b c)%R -> (v1 * v2 + v1 * v3 + v2 * v3 = I2_3 a b c f g h)%R ->
+  (v1 * v2 * v3 = det3 a b c f g h)%R -> v1 <> v2 -> v1 <> v3 -> v2 <> v3 ->
+  let X : Mat3 := sym3 a b c f g h in
+  let P1 := e3_M1 Mat3 X v1 v2 v3 in let P3 := e3_M3 Mat3 X v1 v2 v3 in let P2 := e3_M2 Mat3 P1 P3 in
+  P1 + P2 + P3 = 1 /\ P1 * P1 = P1 /\ P2 * P2 = P2 /\ P3 * P3 = P3 /\
+  P1 * P3 = 0 /\ P3 * P1 = 0 /\ P1 * P2 = 0 /\ P2 * P1 = 0 /\ P3 * P2 = 0 /\ P2 * P3 = 0 /\
+  X = sc v1 * P1 + sc v2 * P2 + sc v3 * P3.
+Proof.
+  intros a b c f g h v1 v2 v3 H1 H2 H3 D12 D13 D23 X P1 P3 P2.
+  pose proof (proj3d_distinct_orth12 a b c f g h v1 v2 v3 H1 H2 H3 D12 D13 D23) as [Ha [Hb [Hc Hd]]].
+  repeat split.
+  - apply proj3d_distinct_sum.
+  - apply (proj3d_distinct_idem1 a b c f g h v1 v2 v3 H1 H2 H3 D12 D13).
+  - apply (proj3d_distinct_idem2 a b c f g h v1 v2 v3 H1 H2 H3 D12 D13 D23).
+  - apply (proj3d_distinct_idem3 a b c f g h v1 v2 v3 H1 H2 H3 D13 D23).
+  - apply (proj3d_distinct_orth13 a b c f g h v1 v2 v3 H1 H2 H3).
+  - apply (proj3d_distinct_orth31 a b c f g h v1 v2 v3 H1 H2 H3).
+  - exact Ha. - exact Hb. - exact Hc. - exact Hd.
+  - apply (proj3d_distinct_decomposition a b c f g h v1 v2 v3 D12 D13 D23).
+Qed.
+Print Assumptions proj3d_distinct_partial.
+
+(* non-vacuity: diag(1,2,3) with roots 1,2,3 *)
+Example proj3d_hypotheses_satisfiable :
+  (1 + 2 + 3 = tr3 1 2 3)%R /\ (1 * 2 + 1 * 3 + 2 * 3 = I2_3 1 2 3 0 0 0)%R /\ (1 * 2 * 3 = det3 1 2 3 0 0 0)%R /\
+  (1 <> 2)%R /\ (1 <> 3)%R /\ (2 <> 3)%R.
+Proof. unfold tr3, I2_3, det3. repeat split; lra. Qed.
